@@ -506,12 +506,12 @@ def build_region(args, body, features, rules_mod=None):
             while j >= 0 and j not in old2new:
                 j -= 1
             kn = old2new[j] + 1 if j >= 0 else 0
-        # an explicit addition that the repository text now contains itself at this very place (e.g. a type annotation
-        # on a `let` that the template had to add and a maintainer later wrote out) is dropped, not duplicated
+        # an explicit TYPE ANNOTATION (`: T`) that the repository text now contains itself at this very place (the template had
+        # to add it on a `let` and a maintainer later wrote it out) is dropped, not duplicated
         st = txt.strip()
         if st.startswith('/*+*/') and st.endswith('/*-*/') and st.count('/*+*/') == 1:
             add = [t.text for t in tokenize(st[5:-5])]
-            if add and (texts(e_new[kn:kn + len(add)]) == add or (kn >= len(add) and texts(e_new[kn - len(add):kn]) == add)):
+            if len(add) >= 2 and add[0] == ':' and (texts(e_new[kn:kn + len(add)]) == add or (kn >= len(add) and texts(e_new[kn - len(add):kn]) == add)):
                 r.log.append('explicit addition `%s` already present in the repository text: not duplicated' % st[5:-5].strip())
                 continue
         inserts.setdefault(kn, []).append(txt)
